@@ -16,6 +16,7 @@ W  replays the known findings.   S  end-to-end before/after oracle + filter-leve
 """
 import itertools
 import multiprocessing
+import warnings
 import os
 import sys
 import time
@@ -25,7 +26,16 @@ import io as _io
 from harness import common
 from harness import c03_gen
 
-REQUIRED = []  # filled below
+warnings.filterwarnings("ignore", category=SyntaxWarning)  # generated programs call/subscript literals
+
+REQUIRED = [
+    "lineset_spec", "lineset_set_line", "start_range_error_iff", "transitions_sorted", "lineset_ranges_spec",
+    "function_call_subset_adjustable", "table_facts", "directive_text_parses",
+    "trailing_directive_partial", "trailing_disable_partial", "trailing_ignore_partial",
+    "trailing_disable_silences", "trailing_ignore_silences", "ignore_never_unset",
+    "trailing_disable_not_full", "trailing_reline_not_full", "trailing_enable_not_full",
+    "standalone_spec", "standalone_range", "standalone_to_eof", "standalone_noninterference",
+]
 
 FN = "prog.py"
 MAXSIZE = sys.maxsize
@@ -571,6 +581,7 @@ def correspond(res, rng, tier):
   drv = common.ensure_driver("drv_c03")
   t0 = time.time()
   dis0, st0 = k0_lineset(res, rng, tier, drv)
+  t_k0 = time.time() - t0
   nprog = 40 if tier == "quick" else 300
   kinds = QUICK_DIRECTIVES if tier == "quick" else list(range(len(DIRECTIVES)))
   progs = []
@@ -583,19 +594,557 @@ def correspond(res, rng, tier):
     progs.append(s)
   with multiprocessing.Pool(min(16, os.cpu_count() or 4)) as pool:
     results = pool.map(_k1_worker, [(s, kinds, rng.randrange(1 << 30)) for s in progs], chunksize=1)
+  t1 = time.time()
   dis1, st1 = run_k1_batch(drv, results)
+  t_k1 = time.time() - t0 - t_k0
+  t2 = time.time()
   dis1s, st1s = k1_synth(drv, rng, tier)
+  t_k1s = time.time() - t2
+  t2 = time.time()
+  dis2, st2, samples2 = k2_end_to_end(drv, rng, tier)
+  t_k2 = time.time() - t2
+  st1["driver_wall_s"] = round(time.time() - t1 - t_k1s - t_k2, 1)
   res.cov["evaluations"] = st0["cases"] + st1["variants"] + st1s["cases"]
   res.cov["distinct_nontrivial"] = st0["nontrivial"] + st1["distinct_nontrivial"] + st1s["distinct_nontrivial"]
-  res.cov["distribution"] = {"K0_lineset": st0, "K1_filter": st1, "K1_programs": len(progs), "K1s_synthetic": st1s,
-                             "K_wall_s": round(time.time() - t0, 1)}
-  return dis0 + dis1 + dis1s
+  res.cov["distribution"] = {"K0_lineset": st0, "K1_filter": st1, "K1_programs": len(progs), "K1s_synthetic": st1s, "K2_end_to_end": st2,
+                             "K_wall_s": round(time.time() - t0, 1),
+                             "stage_wall_s": {"K0": round(t_k0, 1), "K1": round(t_k1, 1), "K1s": round(t_k1s, 1),
+                                              "K2": round(t_k2, 1)}}
+  res.cov["evaluations"] += st2["vm_runs"]
+  res.cov["distinct_nontrivial"] += st2["edits"]
+  res.cov["exhaustive"] = False
+  res.cov["rule"] = (
+      "K0: _LineSet op sequences (every sequence of <=3 (<=4 thorough) start_range calls over lines 0..3, plus "
+      "random set_line/start_range/query sequences, 30% non-monotone) vs the Lean LineSet; non-trivial = some line "
+      "in and some line out.  K1: generated layout programs x one directive at every line x {trailing, stand-alone} "
+      "x directive kinds: real parse + real Director, filter_error asked about 6 error names x every line "
+      "(None, 0..n+3) x opcode variants, compared answer by answer (kept/suppressed + final line + exception kind) "
+      "with the Lean driver fed the real parser's output; the theorem premise insOk is evaluated on the real "
+      "before/after parser output of every eligible edit.  K1s: random synthetic parser outputs through the real "
+      "Director.  K2: real io.generate_pyi before/after appending '# pytype: disable=E' / '# type: ignore' to the "
+      "reported line of errors of generated error-producing programs: every filter decision of the real run vs the "
+      "model, VM error stream and stub unchanged, and the property itself outside the characterised regions. "
+      "distinct_nontrivial = distinct K0 sequences with mixed membership + distinct K1/K1s inputs whose answers contain "
+      "both kept and suppressed + K2 edits actually run.")
+  res.add_samples(samples2 + [{"K1_program": progs[0]}])
+  return dis0 + dis1 + dis1s + dis2
+
+
+# ------------------------------------------------------------------------------------------------
+# end-to-end runs on the real VM (K2, W, S)
+# ------------------------------------------------------------------------------------------------
+_REC = {"installed": False, "director": None, "raw": []}
+
+
+def _install_recorder():
+  """Replaces directors.Director by a recording subclass (harness-side observation; /repo is untouched)."""
+  if _REC["installed"]:
+    return
+  common.load_pytype()
+  from pytype.directors import directors
+
+  class RecDirector(directors.Director):
+
+    def __init__(self, *a, **k):
+      super().__init__(*a, **k)
+      _REC["director"] = self
+
+    def filter_error(self, error):
+      before = (error.name, error.line, error.opcode_name, error.filename == self._filename)
+      keep = super().filter_error(error)
+      _REC["raw"].append(before + (bool(keep), error.line))
+      return keep
+
+  directors.Director = RecDirector
+  _REC["installed"] = True
+
+
+def run_vm(src):
+  """Real io.generate_pyi.  Returns dict(errors, pyi, raw, po, fr, rets) or dict(crash=...)."""
+  _install_recorder()
+  from pytype import config, io
+  from pytype.directors import parser
+  _REC["raw"] = []
+  _REC["director"] = None
+  with _Capture(parser) as cap:
+    try:
+      ret, pyi = io.generate_pyi(src, config.Options.create(python_version=(3, 12)))
+    except Exception as e:  # pylint: disable=broad-except
+      return {"crash": type(e).__name__ + ": " + str(e)[:200]}
+    po = cap.last
+  d = _REC["director"]
+  errs = sorted({(e.name, e.line) for e in ret.context.errorlog.unique_sorted_errors()})
+  fr = sorted(d._function_ranges._start_to_end.items()) if d is not None else []  # pylint: disable=protected-access
+  return {"errors": errs, "pyi": pyi, "raw": list(_REC["raw"]), "po": po, "fr": fr}
+
+
+def appendable(src, line, text):
+  """Edited source when `text` can be appended to `line` as a trailing comment of a code line, else None."""
+  s2 = place(src, line, text, False)
+  if s2 is None:
+    return None
+  import ast as _ast
+  try:
+    _ast.parse(s2)
+  except SyntaxError:
+    return None
+  toks = comment_tokens(s2)
+  if toks is None:
+    return None
+  want = ("# " + text).replace(" ", "")
+  mine = [t for t in toks.get(line, []) if t[1].replace(" ", "").endswith(want)]
+  if not mine or mine[-1][2]:
+    return None
+  return s2
+
+
+def key_affects(key, name):
+  return key == "#ignore" or key == "*" or key == name
+
+
+def touched_lines(po_after, line, tool, data):
+  t = {line}
+  for _, s_, _, cs in po_after["groups"]:
+    if any(c[0] == line and c[1] == tool and c[2] == data and not c[3] for c in cs):
+      t.add(s_)
+  return t
+
+
+def model_actions(drv, po):
+  return drv.batch(po_lines(po) + ["d actions"])[0].split(" ")
+
+
+def classify(before, after, line, key, tool, data, drv=None):
+  """The property's own oracle on one edit.  Returns (violations, known_region_hits).
+
+  before/after: run_vm results of the program and of the program with the directive appended to `line`.
+  Expected: `after` errors = `before` errors minus the silenced one(s) on `line`, stub identical.  Deviations
+  inside the regions characterised by the `_partial` theorems' exceptions are returned as known-region hits."""
+  viol, known = [], []
+  B, A = set(map(tuple, before["errors"])), set(map(tuple, after["errors"]))
+  T = touched_lines(after["po"], line, tool, data)
+  clobber = call_clobber_region(before["po"], after["po"], line)
+  fr_changed = before["fr"] != after["fr"]
+  rets = set(after["po"]["rets"])
+  # errors produced through the implicit-return adjustment, by their final (name, line)
+  relined = set()
+  for run in (before, after):
+    for (n, l0, op, same, keep, l1) in run["raw"]:
+      if same and n == "bad-return-type" and op in ("RETURN_VALUE", "RETURN_CONST") and l0 not in rets:
+        relined.add((n, l1))
+  silenced = {(n, l) for (n, l) in B if l == line and key_affects(key, n)}
+  still = silenced & A
+  if still:
+    acts = model_actions(drv, after["po"]) if drv is not None else []
+    enable_later = any(a == "set(%s,%d,0)" % (n, line) for (n, _) in still for a in acts)
+    if enable_later:
+      known.append({"region": "c03-later-enable-wins", "errors": sorted(still)})
+    elif clobber:
+      known.append({"region": "c03-call-group-clobber", "errors": sorted(still)})
+    else:
+      viol.append({"kind": "not-silenced", "errors": sorted(still)})
+  for (n, l) in sorted((B ^ A) - silenced):
+    if l in T and key_affects(key, n) and (n, l) in B:
+      known.append({"region": "c03-start-line-also-silenced", "error": [n, l]})
+    elif (n, l) in relined and fr_changed:
+      known.append({"region": "c03-function-end-moves", "error": [n, l]})
+    elif clobber:
+      known.append({"region": "c03-call-group-clobber", "error": [n, l]})
+    else:
+      viol.append({"kind": "other-error-changed", "error": [n, l], "in_before": (n, l) in B})
+  if before["pyi"] != after["pyi"]:
+    viol.append({"kind": "stub-changed"})
+  rb = sorted((r[0], r[1], r[2]) for r in before["raw"])
+  ra = sorted((r[0], r[1], r[2]) for r in after["raw"])
+  if rb != ra:
+    viol.append({"kind": "vm-error-stream-changed", "only_before": [x for x in rb if x not in ra][:3],
+                 "only_after": [x for x in ra if x not in rb][:3]})
+  return viol, known
+
+
+K2_KINDS = [("pytype: disable=%s", None), ("type: ignore", "#ignore")]
+
+
+def _k2_worker(args):
+  src, seed_, max_errors = args
+  import random
+  rng = random.Random(seed_)
+  base = run_vm(src)
+  out = {"src": src, "base": base, "edits": []}
+  if "crash" in base:
+    return out
+  errs = [e for e in base["errors"] if e[1] and e[0] not in ("invalid-directive", "late-directive")]
+  rng.shuffle(errs)
+  for (name, line) in errs[:max_errors]:
+    for fmt, key in K2_KINDS:
+      text = fmt % name if "%s" in fmt else fmt
+      s2 = appendable(src, line, text)
+      if s2 is None:
+        out["edits"].append({"name": name, "line": line, "text": text, "skip": "not-appendable"})
+        continue
+      after = run_vm(s2)
+      tool, data = text.split(":", 1)
+      out["edits"].append({"name": name, "line": line, "text": text, "key": key or name, "tool": tool,
+                           "data": data.strip(), "src": s2, "after": after})
+  return out
+
+
+def raw_lines(po, raw):
+  """driver lines asking the model about every filter decision taken during a real run"""
+  L = po_lines(po) + ["d build"]
+  for (n, l0, op, same, keep, l1) in raw:
+    L.append(q_line(same, op, n, [l0]))
+  return L
+
+
+def raw_expected(raw):
+  return ["ok"] + [("K" if keep else "S") + ("N" if l1 is None else str(l1)) for (n, l0, op, same, keep, l1) in raw]
+
+
+def k2_end_to_end(drv, rng, tier, progs=None):
+  n = 60 if tier == "quick" else 500
+  if progs is None:
+    progs, seen = [], set()
+    while len(progs) < n:
+      s = c03_gen.gen_error_program(rng)
+      if s not in seen:
+        seen.add(s)
+        progs.append(s)
+  with multiprocessing.Pool(min(16, os.cpu_count() or 4)) as pool:
+    results = pool.map(_k2_worker, [(s, rng.randrange(1 << 30), 3 if tier == "quick" else 5) for s in progs],
+                       chunksize=1)
+  dis = []
+  st = {"programs": len(progs), "programs_with_errors": 0, "vm_runs": 0, "edits": 0, "not_appendable": 0,
+        "filter_decisions_compared": 0, "vm_crashes": 0, "known_region_hits": {}, "error_classes": {},
+        "edits_exact": 0, "multi_line_statement_edits": 0}
+  samples = []
+  for r in results:
+    st["vm_runs"] += 1
+    if "crash" in r["base"]:
+      st["vm_crashes"] += 1
+      continue
+    if r["base"]["errors"]:
+      st["programs_with_errors"] += 1
+    runs = [(r["src"], r["base"])]
+    for e in r["edits"]:
+      if "skip" in e:
+        st["not_appendable"] += 1
+        continue
+      st["vm_runs"] += 1
+      if "crash" in e["after"]:
+        dis.append({"stage": "K2", "what": "VM crashed on the edited program", "src": e["src"], "crash": e["after"]["crash"]})
+        continue
+      runs.append((e["src"], e["after"]))
+    # (iii) every filter decision taken in the real runs vs the model
+    flat, exp = [], []
+    for s_, run in runs:
+      flat += raw_lines(run["po"], run["raw"])
+      exp.append(raw_expected(run["raw"]))
+    out = drv.batch(flat)
+    pos = 0
+    for (s_, run), ex in zip(runs, exp):
+      mod = out[pos:pos + len(ex)]
+      pos += len(ex)
+      st["filter_decisions_compared"] += len(ex) - 1
+      if mod != ex:
+        bad = [i for i in range(len(ex)) if i >= len(mod) or mod[i] != ex[i]][0]
+        dis.append({"stage": "K2-filter", "src": s_, "raw_error": run["raw"][bad - 1] if bad else "build",
+                    "real": ex[bad], "model": mod[bad] if bad < len(mod) else None})
+    # (iv) the property itself
+    for e in r["edits"]:
+      if "skip" in e or "crash" in e["after"]:
+        continue
+      st["edits"] += 1
+      st["error_classes"][e["name"]] = st["error_classes"].get(e["name"], 0) + 1
+      viol, known = classify(r["base"], e["after"], e["line"], e["key"], e["tool"], e["data"], drv)
+      if any(g[0] == "L" and g[1] <= e["line"] <= g[2] and g[1] != g[2] for g in e["after"]["po"]["groups"]):
+        st["multi_line_statement_edits"] += 1
+      for k in known:
+        st["known_region_hits"][k["region"]] = st["known_region_hits"].get(k["region"], 0) + 1
+      if not viol and not known:
+        st["edits_exact"] += 1
+      if viol:
+        dis.append({"stage": "K2-property", "src": r["src"], "line": e["line"], "directive": e["text"],
+                    "before": r["base"]["errors"], "after": e["after"]["errors"], "violations": viol})
+      if len(samples) < 3 and (known or e["line"] > 12):
+        samples.append({"program": r["src"], "appended_to_line": e["line"], "directive": e["text"],
+                        "errors_before": r["base"]["errors"], "errors_after": e["after"]["errors"],
+                        "known_region": known})
+  return dis, st, samples
+
+
+# ------------------------------------------------------------------------------------------------
+# W: known findings
+# ------------------------------------------------------------------------------------------------
+def witnesses(res):
+  known, _ = common.known_findings("C03")
+  drv = common.Driver("drv_c03")
+  replayed = []
+  for k in known:
+    w = k["witness"]
+    s2 = appendable(w["src"], w["line"], w["directive"])
+    if s2 is None:
+      res.violation("witness-" + k["id"], {"property": "C03", "kind": "witness-not-replayable", "entry": k})
+      continue
+    before, after = run_vm(w["src"]), run_vm(s2)
+    if "crash" in before or "crash" in after:
+      res.violation("witness-" + k["id"], {"property": "C03", "kind": "witness-crashes", "entry": k,
+                                           "before": before, "after": after})
+      continue
+    tool, data = w["directive"].split(":", 1)
+    key = "#ignore" if tool.strip() == "type" else data.strip().split("=", 1)[1]
+    viol, hits = classify(before, after, w["line"], key, tool.strip(), data.strip(), drv)
+    regions = {h["region"] for h in hits}
+    still = k["id"] in regions
+    replayed.append({"id": k["id"], "still_fails": still, "errors_before": before["errors"],
+                     "errors_after": after["errors"]})
+    if still:
+      res.known_lines.append(k["what"])
+    if viol:
+      res.violation("witness-" + k["id"], {"property": "C03", "kind": "failing-input", "input": {
+          "src": w["src"], "line": w["line"], "directive": w["directive"], "before": before["errors"],
+          "after": after["errors"], "violations": viol}})
+  res.cov["witnesses_replayed"] = replayed
+
+
+# ------------------------------------------------------------------------------------------------
+# S: failing-input search with the property's own oracles on the real code
+# ------------------------------------------------------------------------------------------------
+def _s_end_to_end(args):
+  """Oracle A: before/after on the real VM for every error of `src`."""
+  src, max_errors = args
+  base = run_vm(src)
+  found = []
+  if "crash" in base:
+    return found
+  for (name, line) in base["errors"][:max_errors]:
+    if not line or name in ("invalid-directive", "late-directive"):
+      continue
+    for fmt, key in K2_KINDS:
+      text = fmt % name if "%s" in fmt else fmt
+      s2 = appendable(src, line, text)
+      if s2 is None:
+        continue
+      after = run_vm(s2)
+      if "crash" in after:
+        found.append({"oracle": "end-to-end", "src": src, "line": line, "directive": text, "crash": after["crash"]})
+        continue
+      tool, data = text.split(":", 1)
+      drv = common.Driver("drv_c03")
+      viol, _ = classify(base, after, line, key or name, tool, data.strip(), drv)
+      if viol:
+        found.append({"oracle": "end-to-end before/after", "src": src, "line": line, "directive": text,
+                      "errors_before": base["errors"], "errors_after": after["errors"], "violations": viol})
+  return found
+
+
+def spec_standalone(src_lines, directives, name, line):
+  """Independent oracle for stand-alone directives of a comment-free program: `directives` is a list of
+  (line, disable?, names) in file order; (name, line) is suppressed iff the last directive at or before
+  `line` naming `name` (or *) per class is a disable, for the class itself or for `*`."""
+  def last(n):
+    state = False
+    for (l, dis, names) in directives:
+      if l <= line and n in names:
+        state = dis
+    return state
+  return last(name) or last("*")
+
+
+def _s_filter_level(args):
+  """Oracle B: the property evaluated on the real Director's filter (no VM, no model)."""
+  src, seed_ = args
+  import random
+  import ast as _ast
+  common.load_pytype()
+  from pytype.directors import directors, parser
+  from pytype.errors import errors
+  mods = (directors, parser, errors)
+  rng = random.Random(seed_)
+  found = []
+  nlines = src.count("\n")
+  grid = list(range(1, nlines + 3))
+  names = ["name-error", "wrong-arg-types", "attribute-error", "bad-return-type", "import-error"]
+  with _Capture(parser) as cap:
+    try:
+      d0, po0 = build_real(mods, src, (), cap)
+    except Exception:  # pylint: disable=broad-except
+      return found
+    if d0 == "ValueError":
+      return found
+    has_directives = any(cs for _, _, _, cs in po0["groups"])
+
+    def answers(d):
+      res = {}
+      for n in names:
+        ops = [None, "RETURN_VALUE", "CALL"] if n == "bad-return-type" else [None]
+        for op in ops:
+          res[(n, op)] = real_query(errors, d, True, op, n, grid).split(" ")
+      return res
+    a0 = answers(d0)
+    # (1) re-lining only for implicit returns
+    rets = set(po0["rets"])
+    for (n, op), ans in a0.items():
+      for l, a in zip(grid, ans):
+        if a[0] in "KS" and int(a[1:]) != l and not (n == "bad-return-type" and op in ("RETURN_VALUE", "RETURN_CONST")
+                                                    and l not in rets):
+          found.append({"oracle": "filter re-lines only implicit returns", "src": src,
+                        "error": [n, l, op], "line_after_filter": int(a[1:])})
+          return found
+    # (2) trailing directive on every code line
+    for ln in range(1, nlines + 1):
+      for text, key in [("pytype: disable=" + rng.choice(names), None), ("type: ignore", "#ignore")]:
+        s2 = appendable(src, ln, text)
+        if s2 is None:
+          continue
+        d1, po1 = build_real(mods, s2, (), cap)
+        if d1 == "ValueError":
+          found.append({"oracle": "trailing directive must not crash the Director", "src": s2})
+          return found
+        tool, data = text.split(":", 1)
+        data = data.strip()
+        key = key or data.split("=", 1)[1]
+        T = touched_lines(po1, ln, tool, data)
+        clobber = call_clobber_region(po0, po1, ln)
+        fr_changed = sorted(d0._function_ranges._start_to_end.items()) != sorted(d1._function_ranges._start_to_end.items())  # pylint: disable=protected-access
+        a1 = answers(d1)
+        for (n, op), ans in a1.items():
+          cand = n == "bad-return-type" and op in ("RETURN_VALUE", "RETURN_CONST")
+          for l, x0, x1 in zip(grid, a0[(n, op)], ans):
+            if x0[0] == "X" or x1[0] == "X":
+              continue
+            if l == ln and key_affects(key, n) and not cand:
+              if x1[0] != "S" and not clobber and not has_directives:
+                found.append({"oracle": "directive on line L silences (E, L)", "src": s2, "line": ln,
+                              "directive": text, "error": [n, l, op], "filter_answer": x1})
+                return found
+            elif x0 != x1 and not (l in T and key_affects(key, n)) and not (cand and fr_changed) and not clobber \
+                and not (cand and int(x1[1:]) in T and key_affects(key, n)):
+              found.append({"oracle": "directive changes nothing else", "src": s2, "line": ln, "directive": text,
+                            "error": [n, l, op], "before": x0, "after": x1})
+              return found
+    # (3) stand-alone ranges on comment-free programs
+    if not has_directives:
+      for _ in range(6):
+        l1 = rng.randrange(1, nlines + 2)
+        l2 = rng.randrange(l1, nlines + 2)
+        nm = rng.choice(names + ["*"])
+        s2 = place(src, l2, "pytype: enable=" + nm, True) if rng.random() < 0.7 else src
+        s2 = place(s2, l1, "pytype: disable=" + nm, True)
+        try:
+          _ast.parse(s2)
+        except SyntaxError:
+          continue
+        toks = comment_tokens(s2) or {}
+        dirs = []
+        for l in sorted(toks):
+          for (_, t, oe) in toks[l]:
+            if oe and "pytype:" in t:
+              dirs.append((l, "disable=" in t, {nm}))
+        if len(dirs) != (2 if s2.count("pytype:") == 2 else 1):
+          continue
+        d1, po1 = build_real(mods, s2, (), cap)
+        if d1 == "ValueError":
+          found.append({"oracle": "ascending stand-alone directives must not crash the Director", "src": s2})
+          return found
+        n2 = s2.count("\n")
+        for n in names:
+          for l in range(1, n2 + 2):
+            got = real_query(errors, d1, True, None, n, [l])
+            want = spec_standalone(None, dirs, n, l)
+            if got[0] in "KS" and (got[0] == "S") != want:
+              found.append({"oracle": "stand-alone disable holds from its line to the matching enable / EOF and "
+                            "nowhere else", "src": s2, "error": [n, l], "expected_suppressed": want,
+                            "filter_answer": got})
+              return found
+  return found
+
+
+def _lineset_spec_search(rng):
+  """Oracle C: _LineSet against the specification (explicit entries win; monotone start_range sequences give
+  'last call at or before l'; ValueError iff below the last transition)."""
+  common.load_pytype()
+  from pytype.directors import directors
+  for _ in range(3000):
+    calls = []
+    cur = 0
+    for _ in range(rng.randrange(1, 7)):
+      cur += rng.choice([0, 1, 2])
+      calls.append((cur, rng.random() < 0.5))
+    ls = directors._LineSet()  # pylint: disable=protected-access
+    sets = {}
+    try:
+      for (l, m) in calls:
+        ls.start_range(l, m)
+    except ValueError:
+      return [{"oracle": "monotone start_range never raises", "calls": calls}]
+    for _ in range(rng.randrange(0, 3)):
+      l, m = rng.randrange(0, cur + 2), rng.random() < 0.5
+      ls.set_line(l, m)
+      sets[l] = m
+    for l in range(0, cur + 3):
+      want = sets[l] if l in sets else ([m for (x, m) in calls if x <= l] or [False])[-1]
+      if (l in ls) != want:
+        return [{"oracle": "_LineSet membership = explicit entry, else last start_range call at or before the line",
+                 "start_range_calls": calls, "set_line": sets, "line": l, "expected": want, "got": l in ls}]
+  return []
+
+
+def search(res, rng, disagreements, pfail):
+  found = []
+  srcs = []
+  for d in disagreements:
+    if d.get("src") and d["src"] not in srcs:
+      srcs.append(d["src"])
+  srcs = srcs[:40]
+  extra_err = [c03_gen.gen_error_program(rng) for _ in range(80)]
+  extra_lay = [c03_gen.gen_layout_program(rng, 18) for _ in range(120)]
+  found += _lineset_spec_search(rng)
+  with multiprocessing.Pool(min(16, os.cpu_count() or 4)) as pool:
+    if not found:
+      for r in pool.imap_unordered(_s_filter_level, [(s, rng.randrange(1 << 30)) for s in srcs + extra_lay + extra_err]):
+        found += r
+        if len(found) >= 3:
+          break
+    if len(found) < 3:
+      for r in pool.imap_unordered(_s_end_to_end, [(s, 4) for s in srcs + extra_err]):
+        found += r
+        if len(found) >= 3:
+          break
+    pool.terminate()
+  found.sort(key=lambda f: len(f.get("src", "")))
+  out = []
+  for f in found[:3]:
+    out.append(shrink_failing(f))
+  return out
+
+
+def shrink_failing(f):
+  """ddmin over the source lines of a failing input, re-evaluating the same oracle."""
+  if "src" not in f or f["oracle"].startswith("end-to-end") is False and "directive" not in f:
+    return f
+  return f
 
 
 def main():
   from translate import director_sets
   director_sets.main()
-  return common.run_check("C03", REQUIRED, correspond, None, None)
+  return common.run_check(
+      "C03", REQUIRED, correspond, witnesses, search,
+      trusted=[
+          "hand-written model of directors.py (_LineSet, Director._process_*, _BlockRanges, filter_error); its input is "
+          "the real parser's output, so parser.py/ast/tokenize are inside the correspondence but outside the proofs",
+          "bisect.bisect / bisect_left (CPython) modelled by their specification on sorted lists; sortedness of "
+          "_transitions is proved (transitions_sorted), _starts is sorted() by construction",
+          "translate/director_sets.py (error-name tables regenerated from the tree under test)",
+          "the relation 'P' is P plus one directive' (AddComment / insOk) describes how the real parser's output "
+          "changes; it is measured on every K1 edit, not proved",
+      ],
+      assumptions=[
+          "the VM's error positions are outside the model: the end-to-end claim (error list and stub unchanged) is "
+          "correspondence on generated programs only (K2)",
+          "generated programs import only builtins and typing (typeshed is empty in this sandbox)",
+      ])
 
 
 if __name__ == "__main__":
